@@ -10,7 +10,7 @@ pub fn prop() -> Prop {
     Prop {
         id: "C02",
         level: "model_checking",
-        rule: "values: every string of length <=2 (thorough <=3 over a 20-character core) over a 49-character alphabet (all C0 controls, DEL, quote, backslash, slash, U+0080, U+00FF, U+2028/9, U+D7FF, U+E000, U+FFFD, U+FFFF, U+10000, U+1F603, U+10FFFF, 'a') as a value, as a member name and inside an array; 26 boundary numbers; 17 computed numbers (results of arithmetic incl. overflow); ~90 containers of depth <=3 with 0/1/2 members; x 3 styles x utf8 on/off x 4 row separators; each case = 2 runs (output fed back); non-trivial = a character outside ' '..'~', a number that is not a small integer, or a non-empty container; distinct by construction",
+        rule: "values: every string of length <=2 (thorough <=3 over a 20-character core) over a 49-character alphabet (all C0 controls, DEL, quote, backslash, slash, U+0080, U+00FF, U+2028/9, U+D7FF, U+E000, U+FFFD, U+FFFF, U+10000, U+1F603, U+10FFFF, 'a') as a value, as a member name and inside an array; 26 boundary numbers; 17 computed numbers (results of arithmetic incl. overflow); ~90 containers of depth <=3 with 0/1/2 members and 18 array/object chains of depth 8..64; x 3 styles x utf8 on/off x 4 row separators; each case = 2 runs (output fed back); non-trivial = a character outside ' '..'~', a number that is not a small integer, or a non-empty container; distinct by construction",
         explanation: "stdout is framed by the row separator and each row is read by the independent strict RFC 8259 reader and compared with the reference value; style relations (consise has no insignificant whitespace, one-line no line break, pretty = one element/member per line with indentation c*depth, all three equal after deleting insignificant whitespace) and the byte-for-byte fixpoint of a second run are checked on every case",
         assumptions: COMMON_ASSUMPTIONS.to_vec(),
         guards: vec!["control-character", "astral-character", "pretty-nested", "computed-non-finite", "separator-without-newline", "utf8-on"],
@@ -368,6 +368,11 @@ fn containers() -> Vec<V> {
     let mut all = u1;
     all.extend(u2);
     all.extend(u3);
+    // deep chains: layout code that treats depth specially (caps, lookup tables) shows only beyond a threshold
+    for d in [8usize, 16, 31, 32, 33, 34, 48, 63, 64] {
+        all.push(crate::refmodel::spell::nested_chain(d, true));
+        all.push(crate::refmodel::spell::nested_chain(d, false));
+    }
     all.dedup();
     all
 }
@@ -465,5 +470,5 @@ fn run(ctx: &mut Ctx) {
         let it = Item { input: format!("{t} {t}"), args: vec![], expected: Some(vec![v.clone(), v.clone()]), kind: "container", nontrivial: v.depth() > 0 };
         check_item(ctx, &it);
     }
-    ctx.level_done("containers-depth<=3");
+    ctx.level_done("containers-depth<=3-and-chains-to-depth-64");
 }
